@@ -39,6 +39,17 @@ var solvers = []solverSpec{
 	{"cvc5-1.0-enum", func(f string, t int) []string {
 		return []string{"cvc5", "--lang=smt2", "--enum-inst", fmt.Sprintf("--tlimit=%d", t*1000), f}
 	}},
+	// the run time of z3 on the larger quantified goals is heavy-tailed (4 s .. >100 s for the same goal
+	// under different seeds): a small portfolio of configurations makes the race robust
+	{"z3-5.1.0/noauto", func(f string, t int) []string {
+		return []string{"z3-new", "-smt2", fmt.Sprintf("-T:%d", t), "auto_config=false", f}
+	}},
+	{"z3-5.1.0/arith2", func(f string, t int) []string {
+		return []string{"z3-new", "-smt2", fmt.Sprintf("-T:%d", t), "smt.arith.solver=2", f}
+	}},
+	{"z3-5.1.0/seed7", func(f string, t int) []string {
+		return []string{"z3-new", "-smt2", fmt.Sprintf("-T:%d", t), "smt.random_seed=7", "sat.random_seed=7", f}
+	}},
 }
 
 func ctxBackground() context.Context { return context.Background() }
@@ -94,18 +105,30 @@ func solve(dir, name, text string, timeoutS int, thorough bool) SolveResult {
 	}
 	ch := make(chan ans, len(solvers))
 	var wg sync.WaitGroup
-	for _, sp := range solvers {
+	for i, sp := range solvers {
 		wg.Add(1)
-		go func(sp solverSpec) {
+		go func(i int, sp solverSpec) {
 			defer wg.Done()
+			if i >= 4 && !thorough {
+				// the extra portfolio members join only when the first four are still working after 3 s
+				select {
+				case <-ctx.Done():
+					ch <- ans{sp, "cancelled", "", 0}
+					return
+				case <-time.After(3 * time.Second):
+				}
+			}
 			st, out, ms := runSolver(ctx, sp, file, timeoutS)
 			ch <- ans{sp, st, out, ms}
-		}(sp)
+		}(i, sp)
 	}
 	go func() { wg.Wait(); close(ch) }()
 	t0 := time.Now()
 	var last ans
 	for a := range ch {
+		if a.status == "cancelled" {
+			continue
+		}
 		res.Answers[a.sp.name] = a.status
 		if a.status == "sat" || a.status == "unsat" {
 			if res.Status == "" {
@@ -149,7 +172,7 @@ func queryText(sc *Script, o *Obligation, models bool) string {
 		b.WriteString("(set-option :produce-models true)\n")
 	}
 	b.WriteString("(set-logic ALL)\n")
-	b.WriteString(pruneQuantified(sc.textUsing(o.Upto, o.Using), o.Goal))
+	b.WriteString(pruneQuantified(sc.textUsing(o.Upto, o.Using, o.InLoop), o.Goal))
 	if o.Cover {
 		b.WriteString("(assert " + o.Goal + ")\n")
 	} else {
